@@ -72,4 +72,4 @@ def run(P: Program, rep: Report):
                        "case-insensitive type prefix, lower-cased stripped entry type, key / field keys / values / comment / "
                        "preamble / string texts taken from the source between the right delimiters (stripped except the "
                        "preamble), one field per `name = value` in order, duplicate-field entries flagged. " + sf.PRODUCT_RULE_TEXT)
-    sf.report_product(rep, P, "C02.R2", ["content"], "parsed content of well-formed input", after_abort=False)
+    sf.report_product(rep, P, "C02.R2", ["content", "progress"], "parsed content of well-formed input", after_abort=False)
